@@ -19,6 +19,7 @@ META = {
 }
 
 CHAIN_CAP = 260
+LONG_K = 12        # longer curves are judged when the answer has at most this many points
 
 
 def accept_side(costname, v, t):
@@ -26,7 +27,7 @@ def accept_side(costname, v, t):
     return not curved
 
 
-def first_acceptable(mods, pts, t, dname, cname, oname, cache):
+def first_acceptable(mods, pts, t, dname, cname, oname, cache, kmax=None):
     """(k*, S_k*): least k >= 2 whose S_k has a global cost on the accepting side; (n, S_n) if none."""
     fixed = install.orig('rdp', 'rdp_fixed')
     gcost = install.orig('evaluation', 'compute_global_cost')
@@ -34,13 +35,15 @@ def first_acceptable(mods, pts, t, dname, cname, oname, cache):
     key = (dname, oname)
     chain = cache.setdefault(key, {})
     costs = cache.setdefault(('cost', dname, oname, cname), {})
-    for k in range(2, n + 1):
+    for k in range(2, (n if kmax is None else min(n, kmax)) + 1):
         if k not in chain:
             chain[k] = np.asarray(fixed(pts, k, distance(mods, dname), order(mods, oname))[0])
         if k not in costs:
             costs[k] = gcost(pts, chain[k], cost(mods, cname))      # fresh cache on every evaluation
         if accept_side(cname, costs[k], t):
             return k, chain[k]
+    if kmax is not None and kmax < n:
+        return None, None          # bounded walk (long curves): no acceptable member up to kmax
     return n, chain[n]
 
 
@@ -112,10 +115,22 @@ def setup(ctx, mods):
                   {'t': 0.01, 'distance': rdpm.Distance.shortest, 'cost': M.Metrics.smape, 'order': rdpm.Order.segment},
                   args, kwargs)
         pts = a['points']
+        kmax = None
         if len(pts) > CHAIN_CAP:
-            ctx.ood('grdp', 'curve-too-long-for-chain')
+            # long curves: the chain is walked only as far as the answer goes (an answer of m <= LONG_K points claims that S_m
+            # is the first acceptable member - that needs S_2 .. S_m only)
+            m = len(np.asarray(result[0]))
+            if m > LONG_K:
+                ctx.ood('grdp', 'curve-too-long-for-chain')
+                return
+            kmax = m
+        ks, want = first_acceptable(mods, pts, a['t'], a['distance'].value, a['cost'].value, a['order'].value, _cache_for(pts), kmax)
+        if ks is None:
+            ctx.violation('grdp', 'first-acceptable:rdp.grdp',
+                          f'grdp returned {kmax} points although no member of the fixed-size chain up to S_{kmax} is acceptable',
+                          t=a['t'], distance=a['distance'].value, cost=a['cost'].value, order=a['order'].value)
             return
-        ks, want = first_acceptable(mods, pts, a['t'], a['distance'].value, a['cost'].value, a['order'].value, _cache_for(pts))
+        ctx.h('chain_walk', 'long-curve-bounded' if kmax is not None else 'full')
         STATE['kstar'] = ks
         _cost_model_check(ctx, mods, pts, want, a['cost'].value)
         got = np.asarray(result[0])
@@ -180,6 +195,26 @@ def cases(rng, tier, shard, nshards):
     yield {'points': lp, 'family': 'long-spiky', 'layout': 'C', 'cost': pick(rng, ['rpd', 'smape', 'rmspe']), 'distance': pick(rng, DISTANCES),
            'order': pick(rng, ORDERS), 't': float(pick(rng, [0.02, 0.01, 0.005])), 'min_points': int(rng.integers(5, 30)),
            'tlist': [0.02, 0.008], 'mp2': int(rng.integers(5, 25))}
+    if shard < 3 or tier == 'thorough':
+        # one trace of more than 65 536 points (indices no longer fit 16 bits): a cliff after the first sample, then an almost
+        # straight descent - the farthest point of the whole chord is sample 1, the 3-point member [0, 1, n-1] fits well and
+        # the threshold sits between its cost and the cost of the chord, so the run has to stop exactly there
+        n = int(rng.integers(66000, 90000))
+        x = np.arange(n, dtype=float)
+        u = x / float(n - 1)
+        y = 1000.0 - 400.0 * u - float(rng.uniform(5.0, 60.0)) * 4.0 * u * (1.0 - u)
+        y[0] += float(rng.uniform(3000.0, 20000.0))
+        lp = np.ascontiguousarray(np.column_stack((x, np.round(y, 3))))
+        cn, dn, on = pick(rng, ['rpd', 'smape', 'rmspe', 'rmsle']), pick(rng, DISTANCES), pick(rng, ORDERS)
+        with install.quiet():
+            vs = []
+            for k in (2, 3):
+                sk = mods['rdp'].rdp_fixed(lp, k, distance(mods, dn), order(mods, on))[0]
+                vs.append(float(mods['evaluation'].compute_global_cost(lp, sk, cost(mods, cn))))
+        if np.all(np.isfinite(vs)) and 0 < vs[1] < 0.5 * vs[0] and list(sk) == [0, 1, n - 1]:
+            t_ = float(np.sqrt(vs[0] * vs[1]))
+            yield {'points': lp, 'family': 'very-long-early-cliff', 'layout': 'C', 'cost': cn, 'distance': dn, 'order': on,
+                   't': t_, 'min_points': int(rng.integers(2, 4)), 'tlist': [t_, vs[1] * 0.5], 'mp2': int(rng.integers(2, 4))}
     for i in range(shard_count(total, shard, nshards)):
         r = rng.random()
         if tier == 'thorough' and r < 0.03:
